@@ -121,10 +121,19 @@ DanglingExtern(items) == \E q \in DOMAIN items : items[q].s.k = "extern" /\
 
 (* ------------------------------------------------------------------ values: linear forms la*LA + c
    dep = depends on the base in a way that cannot cancel.  With the base known, la = 0 throughout. *)
-OkU(la, c, dep, u) == [st |-> "ok", la |-> la, c |-> c, dep |-> dep, u |-> u]   \* dep: non-linear in the base; u: involves a size that is unknown while the base is
-Ok(la, c, dep)     == OkU(la, c, dep, FALSE)
+(* dep: non-linear in the base.  u: the sizes that are unknown while the base is (paddings of .even/.odd/.align, skips) and that the
+   value contains, as a set of pairs <<item index, coefficient>> with non-zero coefficients: like the base itself they are linear
+   terms, and a difference of two addresses behind the same padding does not contain it any more.  The pair <<0, 1>> stands for a
+   dependence that is not linear (it never cancels). *)
+OkU(la, c, dep, u) == [st |-> "ok", la |-> la, c |-> c, dep |-> dep, u |-> u]
+Ok(la, c, dep)     == OkU(la, c, dep, {})
 Err(why)       == [st |-> "err", why |-> why]
-Conc(x)        == x.la = 0 /\ ~x.dep /\ ~x.u
+Conc(x)        == x.la = 0 /\ ~x.dep /\ x.u = {}
+PadCoef(P, i)  == IF \E x \in P : x[1] = i THEN (CHOOSE x \in P : x[1] = i)[2] ELSE 0
+PadComb(P, Q, a, b) == LET idx == { x[1] : x \in P \cup Q }
+                           all == { << i, a * PadCoef(P, i) + b * PadCoef(Q, i) >> : i \in idx } IN
+                       { x \in all : x[2] # 0 }
+PadOpaque(P, Q) == IF P = {} /\ Q = {} THEN {} ELSE { <<0, 1>> }
 Worse(a, b)    == IF a.st = "err" /\ a.why = "cycle" THEN a ELSE IF b.st = "err" /\ b.why = "cycle" THEN b
                   ELSE IF a.st = "err" THEN a ELSE b
 
@@ -143,11 +152,17 @@ Arith0(op, a, b) ==
                       ELSE IF b.c < 0 THEN Err("arith")
                       ELSE IF b.c = 0 THEN a
                       ELSE IF Conc(a) THEN Ok(0, a.c \div Pow2(b.c), FALSE) ELSE Ok(0, 0, TRUE)
-Arith(op, a, b) == LET r == Arith0(op, a, b) IN IF r.st = "err" THEN r ELSE [r EXCEPT !.u = a.u \/ b.u]
+Arith(op, a, b) == LET r == Arith0(op, a, b) IN
+                   IF r.st = "err" THEN r
+                   ELSE [r EXCEPT !.u = CASE op = "+" -> PadComb(a.u, b.u, 1, 1)
+                                           [] op = "-" -> PadComb(a.u, b.u, 1, -1)
+                                           [] op = "*" /\ Conc(a) -> PadComb(b.u, {}, a.c, 0)
+                                           [] op = "*" /\ Conc(b) -> PadComb(a.u, {}, b.c, 0)
+                                           [] OTHER -> PadOpaque(a.u, b.u)]
 
 (* env = [items, offs (offsets of items 1..known from the base), odep (offset depends on base),
           base (number, or 0 when symbolic), symb (TRUE: base is the unknown LA)]                *)
-AddrOf(env, i) == IF env.symb THEN OkU(1, env.offs[i], FALSE, env.odep[i]) ELSE Ok(0, env.base + env.offs[i], FALSE)
+AddrOf(env, i) == IF env.symb THEN OkU(1, env.offs[i], FALSE, { <<p, 1>> : p \in env.odep[i] }) ELSE Ok(0, env.base + env.offs[i], FALSE)
 
 RECURSIVE Val(_, _, _, _)
 Val(env, e, j, vis) ==
@@ -159,7 +174,7 @@ Val(env, e, j, vis) ==
                              THEN (IF b <= Len(env.offs) THEN AddrOf(env, b) ELSE Err("cycle"))
                              ELSE IF b \in vis THEN Err("cycle")
                                   ELSE Val(env, env.items[b].s.e, b, vis \cup {b})
-      [] e.t = "neg" -> LET a == Val(env, e.e, j, vis) IN IF a.st = "err" THEN a ELSE OkU(-a.la, -a.c, a.dep, a.u)
+      [] e.t = "neg" -> LET a == Val(env, e.e, j, vis) IN IF a.st = "err" THEN a ELSE OkU(-a.la, -a.c, a.dep, PadComb(a.u, {}, -1, 0))
       [] e.t = "bin" -> LET a == Val(env, e.l, j, vis)
                             b == Val(env, e.r, j, vis) IN
                         IF a.st = "err" \/ b.st = "err" THEN Worse(a, b) ELSE Arith(e.op, a, b)
@@ -208,12 +223,12 @@ SizeOf(env, i) ==
             LET a == NumVal(env, s.e, i) IN
             IF a.st = "err" THEN (IF a.why = "dep" THEN D ELSE E(a))
             ELSE IF a.c < 0 \/ a.c >= 65536 THEN E(Err("range")) ELSE N(IF s.k = "blkb" THEN a.c ELSE 2 * a.c)
-      [] s.k = "even"  -> IF env.symb \/ adr.u THEN D ELSE N(adr.c % 2)
-      [] s.k = "odd"   -> IF env.symb \/ adr.u THEN D ELSE N(1 - (adr.c % 2))
+      [] s.k = "even"  -> IF env.symb \/ adr.u # {} THEN D ELSE N(adr.c % 2)
+      [] s.k = "odd"   -> IF env.symb \/ adr.u # {} THEN D ELSE N(1 - (adr.c % 2))
       [] s.k = "align" -> LET a == NumVal(env, s.e, i) IN
                           IF a.st = "err" THEN (IF a.why = "dep" THEN D ELSE E(a))
                           ELSE IF a.c <= 0 THEN E(Err("range"))
-                          ELSE IF env.symb \/ adr.u THEN D ELSE N(Mod(-adr.c, a.c))
+                          ELSE IF env.symb \/ adr.u # {} THEN D ELSE N(Mod(-adr.c, a.c))
       [] s.k = "ascii"  -> N(Len(s.bs))
       [] s.k = "asciic" -> N(ChunksLen(s.cs))          \* one byte per <expr> chunk, whatever its value
       [] s.k = "insert" -> N(s.len)
@@ -229,7 +244,7 @@ RECURSIVE Lay(_, _, _)
 Lay(env0, i, acc) ==
     IF i > Len(env0.items) THEN acc
     ELSE LET off  == IF i = 1 THEN 0 ELSE acc.offs[i - 1] + acc.sizes[i - 1]
-             od   == IF i = 1 THEN FALSE ELSE acc.odep[i - 1] \/ acc.sdep[i - 1]
+             od   == IF i = 1 THEN {} ELSE acc.odep[i - 1] \cup (IF acc.sdep[i - 1] THEN {i - 1} ELSE {})     \* the unknown sizes in front of item i
              env  == [env0 EXCEPT !.offs = Append(acc.offs, off), !.odep = Append(acc.odep, od)]
              r    == SizeOf(env, i)
          IN Lay(env0, i + 1,
@@ -264,7 +279,7 @@ OwnBase(items) ==
              env == [items |-> items, offs |-> lay.offs, odep |-> lay.odep, base |-> 0, symb |-> TRUE]
              a   == Val(env, items[p].s.e, p, {})
          IN IF a.st = "err" THEN [st |-> "err", v |-> 0, cyc |-> a.why = "cycle", unsure |-> FALSE]
-            ELSE IF a.u THEN [st |-> "err", v |-> 0, cyc |-> FALSE, unsure |-> TRUE]        \* may cancel in the real engine: not replayed
+            ELSE IF a.u # {} THEN [st |-> "err", v |-> 0, cyc |-> FALSE, unsure |-> TRUE]   \* an unknown size remains in the base: not replayed
             ELSE IF a.la # 0 \/ a.dep THEN [st |-> "err", v |-> 0, cyc |-> FALSE, unsure |-> FALSE]  \* genuinely depends on itself
             ELSE IF a.c <= -65536 \/ a.c >= 65536 THEN [st |-> "err", v |-> 0, cyc |-> FALSE, unsure |-> FALSE]
             ELSE [st |-> "ok", v |-> Mod(a.c, 65536), cyc |-> FALSE, unsure |-> FALSE]
@@ -495,6 +510,9 @@ LinkAlphabet ==        \* C12: .link / leading '. =' with expressions whose depe
 LinkTopAlphabet ==     \* C12: images at the top of the address space, negative targets and bases (addresses are taken modulo 2^16)
   { Link(Num(65472)), Link(Num(-64)), DotSet(Num(-32)), DotSet(Num(-2)), DotSet(Num(65504)), DotSet(Bin("-", S, E)), DotSet(Bin("-", Num(0), Num(48))),
     Lab("s"), Lab("e"), I0("nop"), W(<<E>>), Blkb(Num(3)) }
+LinkPadAlphabet ==     \* C12: labels behind a padding whose size is unknown while the base is: it cancels in a difference of two such labels
+  { Link(Bin("+", K, Bin("-", E, S))), Link(Bin("+", Bin("-", K, E), S)), Link(Bin("-", K, Bin("*", Num(2), Bin("-", E, S)))),
+    [k |-> "even"], [k |-> "align", e |-> Num(4)], By(<<Num(1)>>), Lab("s"), Lab("e"), W(<<S>>), Inc(1), Inc(6) }
 LinkCondAlphabet ==    \* C12: the base set inside a conditionally assembled block ('.repeat flag { .link X }', flag defined before or after)
   { RepC(1, "on", << Link(K) >>), RepC(0, "off", << Link(Num(2048)) >>), RepC(1, "on", << DotSet(K) >>), RepC(1, "on", << Link(Bin("+", K, Num(6))) >>),
     Rep(1, << Link(K) >>), Const("on", Num(1)), Const("off", Num(0)), Lab("s"), Lab("e"), W(<<S>>), I0("nop") }
@@ -554,7 +572,9 @@ LayoutIncFiles == << [name |-> "i1", body |-> << Lab("x"), W(<< Sym("x"), Dot >>
                      \* (its count is defined below it) with statements that do and do not look at '.'
                      [name |-> "i5", body |-> << Rep(1, << By(<< Num(1) >>), [k |-> "even"] >>),
                                                  RepC(2, "cnt", << By(<< Num(170) >>), [k |-> "even"], W(<< Dot >>), By(<< Num(187) >>) >>),
-                                                 Const("cnt", Num(2)) >>] >>
+                                                 Const("cnt", Num(2)) >>],
+                     \* i6: its first statement is an exported label (the label is the file's own base)
+                     [name |-> "i6", body |-> << LabX("s"), W(<< Num(2), Num(3) >>) >>] >>
 
 (* ------------------------------------------------------------------ TLC writes the program *)
 Stmts(fs)  == Concat(fs)
